@@ -408,6 +408,8 @@ def run(cx):
     for sn in ("S1", "S2", "S3"):
         dm += [(sn, ops) for ops in dup_move_scripts(rng, schs[sn], cx.n(100, 1200))]
     law_scripts(cx, schs, dm, kind="law-dup-move", present=present)
+    rng = cx.sub_rng("multikey")
+    law_scripts(cx, schs, [("S4", ops) for ops in multikey_scripts(rng, cx.n(400, 4000))], kind="law-multikey", present=present)
 
 
 def emptied_parent_scripts(rng, sch, n):
@@ -459,6 +461,63 @@ def emptied_parent_scripts(rng, sch, n):
         for _ in range(3):
             x = rng.choice(ch)
             ops.append("find,20,%s,%s" % (sch.qname(x), hexs(sibcomp.gen_value(rng, x["kt"], bad=0))))
+        out.append(ops)
+    return out
+
+
+MK_LISTS = {"m2": [("a", "str"), ("b", "i32")], "mu": [("a", "i32"), ("b", "str")], "m3": [("p", "u8"), ("q", "str"), ("r", "i32")],
+            "t2": [("a", "i32"), ("b", "str")], "in": [("x", "u8"), ("y", "str")]}
+
+
+def multikey_scripts(rng, n):
+    """Directed family (law mode, schema S4): instances of lists with two / three keys are created through key predicates written
+    in schema order and in any other order (lyd_new_list2, lyd_new_path with and without a parent), equal instances are asked for
+    again (LY_EEXIST), non-key children are added, instances are duplicated, unlinked and moved; after every op the battery checks
+    keys first and in schema order, instances sorted by all keys, hashes, and the searches by predicates in both orders."""
+    out = []
+
+    def kv(kt):
+        return rng.choice([v for v in sibcomp.POOL[kt] if "'" not in v and v != ""] or ["1"])
+
+    def preds(name, vals, order=None):
+        ks = MK_LISTS[name]
+        idx = list(range(len(ks)))
+        if order == "rev":
+            idx.reverse()
+        elif order == "rnd":
+            rng.shuffle(idx)
+        return "".join("[%s='%s']" % (ks[i][0], vals[i]) for i in idx)
+    for _ in range(n):
+        ops = [sibcomp.op_new(1, None, "sdd:c", b"")]
+        if rng.random() < 0.6:      # >= 4 children: the children hash table exists
+            ops += [sibcomp.op_new(2, 1, "sdd:a", b"x"), sibcomp.op_new(3, 1, "sdd:e", b"x"), sibcomp.op_new(4, 1, "sdd:sll", b"1"), sibcomp.op_new(5, 1, "sdd:sll", b"2")]
+        made, nid = [], 10
+        for _k in range(rng.randint(3, 9)):
+            name = rng.choice(["m2", "m2", "mu", "m3", "t2"])
+            vals = [kv(kt) for _, kt in MK_LISTS[name]]
+            if made and rng.random() < 0.25:
+                name, vals = rng.choice(made)[:2]          # an instance that exists already
+            order = rng.choice([None, "rev", "rev", "rnd"])
+            how = rng.random()
+            top = name == "t2"
+            if how < 0.45:
+                ops.append("newlist2,%d,%s,sdd:%s,%s" % (nid, "-" if top else 1, name, hexs(preds(name, vals, order).encode())))
+            elif how < 0.8:
+                path = ("/sdd:t2" if top else "/sdd:c/" + name) + preds(name, vals, order) + rng.choice(["", "/v"])
+                ops.append("newpath,%d,%s,%s,%s" % (nid, rng.choice(["-", "1"]), hexs(path.encode()), hexs(b"val")))
+            else:
+                path = ("/sdd:t2" if top else name) + preds(name, vals, order)
+                if name == "m2" and rng.random() < 0.5:
+                    path += "/in" + preds("in", [kv("u8"), kv("str")], rng.choice([None, "rev"])) + rng.choice(["", "/v"])
+                ops.append("newpath,%d,%s,%s,%s" % (nid, "-" if top else "1", hexs(path.encode()), hexs(b"val")))
+            made.append((name, vals, nid))
+            nid += 1
+            if rng.random() < 0.3 and not top:
+                ops.append(sibcomp.op_new(nid, made[-1][2], "sdd:v", b"q"))
+                nid += 1
+        for _k in range(rng.randint(0, 3)):
+            name, vals, i = rng.choice(made)
+            ops.append(rng.choice(["unlink,%d" % i, "dup,%d,-,0" % i, "dup,%d,%s,0" % (i, "-" if name == "t2" else 1), "ins_child,%d,1" % i if name != "t2" else "unlink,%d" % i]))
         out.append(ops)
     return out
 
